@@ -1314,11 +1314,16 @@ func (h *verifC10H) checkWellformed(tg verifC10Target, wf verifC10WF) (outcome s
 		err    error
 		m      any
 	)
+	// history dimension (c10hist_test.go): the fresh encoding of the value,
+	// then the disturbances; the encoding below is the one made after them
+	pre := h.histBefore(tg, func() ([]byte, error) { return tg.encodeRaw(wf.V) })
+	defer h.histFinish(pre, tg, "wf:"+wf.Class, wf.DiagOnly)
 	if vc.Guard("no_panic", tg.Name+"|encode-wf|"+wf.Class, wit, func() {
 		b0, err = tg.encodeRaw(wf.V)
 	}) {
 		return "panic"
 	}
+	h.histAfter(pre, tg, "wf:"+wf.Class, b0, err != nil, wf.DiagOnly)
 	if err != nil {
 		if expectRefuse {
 			// "encodes to at most 65535 bytes": the only acceptable
@@ -1362,6 +1367,7 @@ func (h *verifC10H) checkWellformed(tg verifC10Target, wf verifC10WF) (outcome s
 			"the value encodes (%d bytes) but the message's own decoder rejects these bytes: %v",
 			len(b0), err))
 	}
+	h.histMid(pre, tg, wit) // other decodes before the decoded value is judged
 	if vc.Guard("no_panic", tg.Name+"|reencode-wf|"+wf.Class, wit, func() {
 		b1, err = tg.encodeRaw(m)
 	}) {
